@@ -20,7 +20,7 @@ def jobs(tier):
     J = []
     # (a) sequential: every requested size from every current size, sequences of resizes with content
     for mm, extra in ((0, {}), (1, dict(minb=2)), (2, {}), (0, dict(custom=1)), (1, dict(custom=1, minb=1, maxb=4))):
-        J.append(seq(len=6 if q else 8, keys=2, hmap=1, alpha_seq=1, nresize=12, mm=mm, workers=8, **extra))
+        J.append(seq(len=6 if q else 10, keys=2, hmap=1, alpha_seq=1, nresize=12, mm=mm, workers=8, **extra))
     J.append(seq(len=5 if q else 6, keys=2, hmap=1, alpha_seq=1, nresize=12, maxb=0, workers=8))          # unlimited order table
     J.append(seq(len=3 if q else 4, keys=1, hmap=1, alpha_seq=1, nresize=8, big=1, init=256, minb=1, maxb=1024, mm=2, workers=8,
                  horizon=400000))
